@@ -66,7 +66,7 @@ PROP_BOOST = {
             'remove_child_interface': 5, 'unpeer': 5, 'remove_facility': 3, 'remove_switch': 3, 'prune': 3,
             'add_child_interface': 8, 'peer': 5, 'connect_interface': 8, 'add_link': 10, 'svc_add_interface': 10,
             'remove_link': 4, 'svc_remove_interface': 6, 'node_remove_network_service': 5},
-    'C09': {'failing': 14},
+    'C09': {'failing': 14, 'peer': 5, 'connect_interface': 8, 'add_child_interface': 5},
     'C02': {'set_property': 20, 'unset_property': 8, 'get_sliver': 10, 'set_properties': 4, 'prop_setter': 4,
             'update_labels': 3, 'update_capacities': 3},
     'C10': {'validate': 14, 'add_network_service': 14, 'connect_interface': 8, 'set_property': 8},
